@@ -1383,6 +1383,11 @@ class SVG:
         # Simplify things that do not simplify in isolation
         self.simplify(inplace=True)
 
+        if drop_unsupported:
+            # discard now what the final check would discard, so that the groups and
+            # gradients this leaves without purpose are tidied up with everything else
+            self.checkpicosvg(allow_text=allow_text, drop_unsupported=True)
+
         # Tidy up
         self.evenodd_to_nonzero_winding(inplace=True)
         self.normalize_opacity(inplace=True)
